@@ -171,7 +171,11 @@ func (v *Env) evalForall(guard *Term, x *SExpr) *Term {
 		arrV := sv.eval(tg.arr)
 		var ptr *Term
 		var elem types.Type
+		ghostFam := ""
 		switch a := arrV.(type) {
+		case GhostMapV:
+			ptr = ConstI(0, I64)
+			ghostFam = "ghost:" + a.Name
 		case SliceV:
 			ptr, elem = a.Ptr, a.Elem
 		case PtrV:
@@ -184,7 +188,10 @@ func (v *Env) evalForall(guard *Term, x *SExpr) *Term {
 			v.fail("forall trigger %s is not a slice or array", tg.arr)
 		}
 		c := v.e.toI64(sv.eval(tg.idx)) // idx with name := 0
-		fam := "elem:" + typeName(elem)
+		fam := ghostFam
+		if fam == "" {
+			fam = "elem:" + typeName(elem)
+		}
 		q := &QHyp{at: len(v.e.ctx.hyps), idx: len(v.e.ctx.qhyps), family: fam, done: map[int]bool{}, cache: map[int]*Term{}}
 		q.solve = func(addr *Term) []*Term {
 			return []*Term{SubNW(SubNW(addr, ptr), c)}
@@ -365,9 +372,19 @@ func (v *Env) ident(name string) Value {
 			return v.results[i]
 		}
 	}
+	if v.e.C.GhostMaps[name] {
+		return GhostMapV{name}
+	}
 	if !v.site {
 		if val, ok := v.e.lets[name]; ok {
 			return val
+		}
+		// at a program point (loop header, call site) a name denotes the variable's current
+		// value; inside old(...) a parameter name denotes its entry value
+		if v.block != nil && !v.inOld {
+			if val, ok := v.e.lookupLocal(name, v.block, v.state()); ok {
+				return val
+			}
 		}
 		if val, ok := v.e.params[name]; ok {
 			// free variables of closures are cells: the name denotes the content
@@ -450,6 +467,8 @@ func (v *Env) object(obj types.Object) Value {
 	v.fail("cannot use %s in a contract", obj)
 	return nil
 }
+
+type GhostMapV struct{ Name string }
 
 type typeValue struct{ T types.Type }
 type pkgValue struct{ P *types.Package }
@@ -775,6 +794,9 @@ func (v *Env) isLocalName(nm string) bool {
 func (v *Env) index(x *SExpr) Value {
 	base := v.eval(x.Args[0])
 	switch b := base.(type) {
+	case GhostMapV:
+		i := v.e.toI64(v.eval(x.Args[1]))
+		return Scalar{v.e.ctx.read(v.state(), "ghost:"+b.Name, I64, i)}
 	case SliceV, PtrV:
 		_ = b
 		return v.e.loadAt(v.state(), v.loc(x))
@@ -882,6 +904,15 @@ func (v *Env) call(x *SExpr) Value {
 			}
 			z := ConstI(0, I64)
 			return Scalar{Or(Le(a.Len, z), Le(b.Len, z), Le(AddNW(a.Ptr, a.Len), b.Ptr), Le(AddNW(b.Ptr, b.Len), a.Ptr))}
+		case "unchanged_except": // memory of s's element type equals the entry memory outside s[0:len(s)]
+			a, ok := v.eval(args[0]).(SliceV)
+			if !ok {
+				v.fail("unchanged_except needs a slice")
+			}
+			return Scalar{v.unchangedExcept(a)}
+		case "iszero": // the value equals the zero value of its type
+			a := v.eval(args[0])
+			return Scalar{v.e.isZeroValue(a)}
 		case "heapslice": // storage of s was allocated dynamically (it is not an array field)
 			a, ok := v.eval(args[0]).(SliceV)
 			if !ok {
@@ -1077,4 +1108,72 @@ func (v *Env) pureCall(fn *ssa.Function, args []Value) Value {
 		return res[0]
 	}
 	return TupleV(res)
+}
+
+// unchangedExcept: for every address outside s[0:len(s)] the element memory equals the old one.
+func (v *Env) unchangedExcept(s SliceV) *Term {
+	if v.neg {
+		v.fail("unchanged_except in negative position")
+	}
+	e := v.e
+	cur, old := v.cur, v.old
+	lo, hi := s.Ptr, AddNW(s.Ptr, s.Len)
+	res := True
+	for _, lf := range e.leafFamilies(s.Elem, "elem:"+typeName(s.Elem)) {
+		mc := e.ctx.family(cur, lf.key, lf.sort)
+		mo := e.ctx.family(old, lf.key, lf.sort)
+		if mc == mo {
+			continue
+		}
+		body := func(a *Term) *Term {
+			return Imp(Or(Lt(a, lo), Le(hi, a)), Eq(e.ctx.mc.Read(mc, a), e.ctx.mc.Read(mo, a)))
+		}
+		if v.polarity == polProve {
+			a := Fresh("sk.addr", Ref)
+			res = And(res, body(a))
+			continue
+		}
+		pc := cur.pc
+		q := &QHyp{at: len(e.ctx.hyps), idx: len(e.ctx.qhyps), family: lf.key, done: map[int]bool{}, cache: map[int]*Term{}}
+		q.solve = func(addr *Term) []*Term { return []*Term{addr} }
+		q.body = func(a *Term) *Term { return Imp(pc, body(a)) }
+		e.ctx.qhyps = append(e.ctx.qhyps, q)
+	}
+	return res
+}
+
+func (e *Exec) isZeroValue(a Value) *Term {
+	switch x := a.(type) {
+	case Scalar:
+		if x.T.Sort.Kind == SBool {
+			return Not(x.T)
+		}
+		return Eq(x.T, ConstI(0, x.T.Sort))
+	case UntypedInt:
+		return BoolT(x.V.Sign() == 0)
+	case SliceV:
+		return And(Eq(x.Ptr, ConstI(0, Ref)), Eq(x.Len, ConstI(0, I64)), Eq(x.Cap, ConstI(0, I64)))
+	case StringV:
+		return Eq(x.Len, ConstI(0, I64))
+	case StructV:
+		r := True
+		for _, f := range x.Fields {
+			r = And(r, e.isZeroValue(f))
+		}
+		return r
+	case ArrayV:
+		r := True
+		for _, f := range x.Elems {
+			r = And(r, e.isZeroValue(f))
+		}
+		return r
+	case PtrV:
+		return Eq(x.Addr, ConstI(0, Ref))
+	case IfaceV:
+		return Eq(x.ID, ConstI(0, Ref))
+	case FuncV:
+		return Eq(x.ID, ConstI(0, Ref))
+	}
+	e.errorf("iszero of %T", a)
+	return nil
 }
